@@ -94,8 +94,69 @@ def lattice():
                 yield list(ent), L
 
 
+def _zip_bytes(members):
+    import zipfile
+    buf = io.BytesIO()
+    with zipfile.ZipFile(buf, "w", zipfile.ZIP_DEFLATED) as zf:
+        for name, data in members:
+            zf.writestr(name, data)
+    return buf.getvalue()
+
+
+def native_wrappers():
+    """Position restore / close-on-failure / directory flag, on real zipfile objects."""
+    import zipfile
+    from sharepoint2text.parsing.extractors.util import zip_bomb
+    good = _zip_bytes([("a.txt", b"hello"), ("d/", b"")])
+    bomb = _zip_bytes([("a.txt", b"\0" * 200000)])
+    low = zip_bomb.ZipBombLimits(max_entry_compression_ratio=2.0)
+    for label, data, lim in (("accepted", good, zip_bomb.DEFAULT_ZIP_BOMB_LIMITS), ("rejected", bomb, low),
+                             ("not-a-zip", b"garbage" * 10, zip_bomb.DEFAULT_ZIP_BOMB_LIMITS)):
+        bio = io.BytesIO(data)
+        bio.seek(3)
+        try:
+            zip_bomb.validate_zip_bytesio(bio, limits=lim, source="replay")
+            res = "returned"
+        except Exception as e:  # noqa
+            res = type(e).__name__
+        if bio.tell() != 3:
+            return {"target": "zip_bomb.py::validate_zip_bytesio", "inputs": {"case": label, "start_position": 3},
+                    "expected": "stream position 3 after the call", "observed": f"position {bio.tell()} after {res}"}
+    # directory flag: must agree with ZipInfo.is_dir() of the real library
+    for name, attr in (("d/", 0), ("f.xml", 0x10), ("f.xml", 0), ("d/", 0x10), ("word/document.xml", 0x10 | (0o100644 << 16))):
+        zi = zipfile.ZipInfo(name)
+        zi.external_attr = attr
+        got = zip_bomb._is_directory(zi)
+        if got != zi.is_dir():
+            return {"target": "zip_bomb.py::_is_directory", "inputs": {"filename": name, "external_attr": attr},
+                    "expected": f"is_dir() == {zi.is_dir()}", "observed": f"_is_directory == {got}"}
+    # close on failure
+    closed = []
+    orig = zipfile.ZipFile.close
+    def spy(self):
+        closed.append(id(self))
+        return orig(self)
+    zipfile.ZipFile.close = spy
+    try:
+        try:
+            zip_bomb.open_zipfile(io.BytesIO(bomb), limits=low, source="replay")
+            res = "returned"
+        except Exception as e:  # noqa
+            res = type(e).__name__
+    finally:
+        zipfile.ZipFile.close = orig
+    if res != "ExtractionZipBombError" or not closed:
+        return {"target": "zip_bomb.py::open_zipfile", "inputs": {"case": "ratio bomb, entry ratio limit 2"},
+                "expected": "ExtractionZipBombError and container closed", "observed": f"{res}, close calls={len(closed)}"}
+    return None
+
+
 def find(req):
     tried = 0
+    r = native_wrappers()
+    if r is not None:
+        r.update(reproduced=True, found_by="native wrapper cases")
+        return r
     w = req.get("witness") or {}
     if w.get("entries") is not None and w.get("limits"):
         want, got = check([tuple(e) for e in w["entries"]], w["limits"])
@@ -119,6 +180,9 @@ def _res(ent, L, want, got, tried, how):
 
 
 def rerun(stored):
+    if "entries" not in stored.get("inputs", {}):
+        r = native_wrappers()
+        return dict(r or {}, reproduced=r is not None)
     ent = [tuple(e) for e in stored["inputs"]["entries"]]
     L = stored["inputs"]["limits"]
     want, got = check(ent, L)
